@@ -433,12 +433,12 @@ Proof.
   intros. rewrite <- (firstn_skipn k l) at 1. f_equal. now apply skipn_nth_cons.
 Qed.
 
-Theorem hl_remove_refines : forall hs s k, ll_inv s -> hl_R hs s -> pos_ok s k = true ->
-  snd (fst (hl_remove hs (node_at s k))) = snd (fst (ll_remove s k)) /\
-  snd (hl_remove hs (node_at s k)) = snd (ll_remove s k) /\
-  hl_R (fst (fst (hl_remove hs (node_at s k)))) (fst (fst (ll_remove s k))).
+Theorem hl_remove_refines : forall hs s k cb, ll_inv s -> hl_R hs s -> pos_ok s k = true ->
+  snd (fst (hl_remove hs (node_at s k) cb)) = snd (fst (ll_remove s k cb)) /\
+  snd (hl_remove hs (node_at s k) cb) = snd (ll_remove s k cb) /\
+  hl_R (fst (fst (hl_remove hs (node_at s k) cb))) (fst (fst (ll_remove s k cb))).
 Proof.
-  intros hs s k I R Hpos. pose proof R as (R1 & R2 & R3 & R4 & R5).
+  intros hs s k cb I R Hpos. pose proof R as (R1 & R2 & R3 & R4 & R5).
   destruct (ll_path_nodup s I) as (ND & Fr & Rg).
   pose proof (pos_ok_nat s k Hpos) as [Hk0 Hlt].
   set (n := Z.to_nat k) in *. set (x := node_at s k).
@@ -496,8 +496,8 @@ Proof.
       apply ND. rewrite in_app_iff in *. destruct H as [H | H]; [now left | right].
       rewrite <- E2. apply in_or_app. now left. }
   rewrite Hy. destruct (d =? 0) eqn:Ed; cbn [fst snd].
-  - split; [reflexivity|]. split; [reflexivity|]. apply Hfinal; auto.
-  - split; [reflexivity|]. split; [reflexivity|]. apply Hfinal; auto.
+  - split; [reflexivity|]. split; [destruct cb; reflexivity|]. apply Hfinal; auto.
+  - split; [reflexivity|]. split; [destruct cb; reflexivity|]. apply Hfinal; auto.
     intros z Hz. upd_tac.
 Qed.
 
@@ -507,15 +507,16 @@ Lemma links_data_irrel : forall h h' u r, links h u r ->
   (forall z, hnext h' z = hnext h z) -> (forall z, hprev h' z = hprev h z) -> links h' u r.
 Proof. intros. apply links_frame with (h := h); auto. Qed.
 
-Lemma h_clear_loop_spec : forall l h fuel,
+Lemma h_clear_loop_spec : forall cb l h fuel,
   links h HEAD (l ++ [TAIL]) -> NoDup (HEAD :: l ++ [TAIL]) -> (length l <= fuel)%nat ->
-  exists h', h_clear_loop fuel h (hnext h HEAD) = (h', filter nonnull (map (hdata h) l), TAIL) /\
+  exists h', h_clear_loop fuel cb h (hnext h HEAD) =
+             (h', (if cb then filter nonnull (map (hdata h) l) else []), TAIL) /\
              links h' HEAD [TAIL].
 Proof.
-  induction l as [|y r IH]; intros h fuel L ND F.
+  intros cb. induction l as [|y r IH]; intros h fuel L ND F.
   - cbn [app links] in L. destruct L as (L1 & L2 & _). rewrite L1. exists h.
-    split; [|cbn [links]; auto]. destruct fuel; cbn [h_clear_loop map filter]; [reflexivity|].
-    now rewrite Z.eqb_refl.
+    split; [|cbn [links]; auto]. destruct fuel; cbn [h_clear_loop map filter]; [destruct cb; reflexivity|].
+    rewrite Z.eqb_refl. destruct cb; reflexivity.
   - destruct fuel; [simpl in F; lia|]. cbn [app] in L, ND.
     pose proof L as (L1 & L2 & L3). cbn [h_clear_loop]. rewrite L1.
     assert (Hy : y <> TAIL).
@@ -526,7 +527,7 @@ Proof.
     { intro Hin. apply NoDup_cons_iff in ND as [_ N2]. apply NoDup_cons_iff in N2 as [N3 _]. apply N3. apply in_or_app. now left. }
     destruct (r ++ [TAIL]) as [|n B] eqn:E; [destruct r; discriminate|].
     assert (Hn : hnext h y = n) by (cbn [links] in L3; tauto).
-    set (h1 := fst (h_free_data h y)).
+    set (h1 := fst (h_free_data h y cb)).
     assert (Hh1 : (forall z, hnext h1 z = hnext h z) /\ (forall z, hprev h1 z = hprev h z) /\
                   (forall z, z <> y -> hdata h1 z = hdata h z)).
     { unfold h1, h_free_data. destruct (hdata h y =? 0); cbn [fst]; repeat split; auto. intros z Hz. upd_tac. }
@@ -545,9 +546,10 @@ Proof.
     { cbn [links] in L'. tauto. }
     rewrite Hhd in E'.
     exists h'. split; auto.
-    replace (h_free_data h y) with (h1, if hdata h y =? 0 then [] else [hdata h y])
+    replace (h_free_data h y cb) with (h1, if hdata h y =? 0 then [] else (if cb then [hdata h y] else []))
       by (unfold h1, h_free_data; destruct (hdata h y =? 0); reflexivity).
     rewrite Hn, E'. f_equal. f_equal.
+    destruct cb; [|destruct (hdata h y =? 0); reflexivity].
     cbn [map filter].
     assert (Em : map (hdata (h_unlink h1 y)) r = map (hdata h) r).
     { apply map_ext_in. intros z Hz. rewrite h_unlink_data. apply Hd1. intro Ezy. subst z. contradiction. }
@@ -560,12 +562,12 @@ Proof.
   intros [id d] Hin. cbn [fst snd]. now apply R5.
 Qed.
 
-Theorem hl_clear_refines : forall hs s, ll_inv s -> hl_R hs s ->
-  exists hs', hl_clear hs = Some (hs', snd (ll_clear s)) /\ hl_R hs' (fst (ll_clear s)).
+Theorem hl_clear_refines : forall hs s cb, ll_inv s -> hl_R hs s ->
+  exists hs', hl_clear hs cb = Some (hs', snd (ll_clear s cb)) /\ hl_R hs' (fst (ll_clear s cb)).
 Proof.
-  intros hs s I R. pose proof R as (R1 & R2 & R3 & R4 & R5).
+  intros hs s cb I R. pose proof R as (R1 & R2 & R3 & R4 & R5).
   destruct (ll_path_nodup s I) as (ND & _ & _). destruct I as (I1 & _).
-  destruct (h_clear_loop_spec (ids s) (hh hs) (Z.to_nat (hsize hs)) R4 ND) as (h' & E & L).
+  destruct (h_clear_loop_spec cb (ids s) (hh hs) (Z.to_nat (hsize hs)) R4 ND) as (h' & E & L).
   { rewrite R1, I1. unfold zlen. rewrite ids_length. lia. }
   unfold hl_clear. rewrite E, Z.eqb_refl. eexists. split.
   - unfold ll_clear. cbn [snd]. rewrite (map_hdata_ids hs s R). reflexivity.
@@ -708,7 +710,7 @@ Qed.
 Theorem hl_pstep_refines : forall hs s o, ll_inv s -> hl_R hs s -> ll_op_ok s o = true ->
   exists hs', hl_pstep hs o = Some (hs', snd (ll_step s o)) /\ hl_R hs' (fst (ll_step s o)).
 Proof.
-  intros hs s o I R Hok. destruct o as [pos d ok | pos d ok | k | ]; cbn [hl_pstep ll_step].
+  intros hs s o I R Hok. destruct o as [pos d ok | pos d ok | k cb | cb]; cbn [hl_pstep ll_step].
   - assert (Hpos : match pos with None => True | Some k => pos_ok s k = true end) by (destruct pos; auto).
     assert (Hn : hl_node_of hs pos = Some (match pos with None => None | Some k => Some (node_at s k) end)).
     { destruct pos as [k|]; cbn [hl_node_of]; auto. now rewrite (hl_at_refines hs s k I R Hpos). }
@@ -722,11 +724,11 @@ Proof.
     destruct (hl_append hs _ d ok) as [hs' r]. destruct (ll_append s pos d ok) as [s' r'].
     cbn [fst snd] in *. subst r'. eexists. split; [|exact E2]. destruct r; reflexivity.
   - cbn [ll_op_ok] in Hok. rewrite (hl_at_refines hs s k I R Hok).
-    destruct (hl_remove_refines hs s k I R Hok) as (E1 & E2 & E3).
-    destruct (hl_remove hs (node_at s k)) as [[hs' nx] f]. destruct (ll_remove s k) as [[s' nx'] f'].
+    destruct (hl_remove_refines hs s k cb I R Hok) as (E1 & E2 & E3).
+    destruct (hl_remove hs (node_at s k) cb) as [[hs' nx] f]. destruct (ll_remove s k cb) as [[s' nx'] f'].
     cbn [fst snd] in *. subst f'. eexists. split; [reflexivity | exact E3].
-  - destruct (hl_clear_refines hs s I R) as (hs' & E & R'). rewrite E.
-    destruct (ll_clear s) as [s' f]. cbn [fst snd] in *. eexists. split; [reflexivity | exact R'].
+  - destruct (hl_clear_refines hs s cb I R) as (hs' & E & R'). rewrite E.
+    destruct (ll_clear s cb) as [s' f]. cbn [fst snd] in *. eexists. split; [reflexivity | exact R'].
 Qed.
 
 Theorem hl_prun_refines : forall ops hs s, ll_inv s -> hl_R hs s -> ll_ops_ok s ops ->
@@ -777,11 +779,11 @@ Proof.
   split; auto. f_equal. unfold zlen. rewrite Nat2Z.id. now rewrite ins_at_len.
 Qed.
 
-Lemma qu_dequeue_as_ll : forall q id d r, qitems q = (id, d) :: r ->
-  q_as_ll (fst (qu_dequeue q)) = fst (fst (ll_remove (q_as_ll q) 0)) /\
-  snd (qu_dequeue q) = snd (ll_remove (q_as_ll q) 0).
+Lemma qu_dequeue_as_ll : forall q id d r cb, qitems q = (id, d) :: r ->
+  q_as_ll (fst (qu_dequeue q cb)) = fst (fst (ll_remove (q_as_ll q) 0 cb)) /\
+  snd (qu_dequeue q cb) = snd (ll_remove (q_as_ll q) 0 cb).
 Proof.
-  intros q id d r E. unfold qu_dequeue, ll_remove, q_as_ll. cbn [litems lnext lpool lsize]. rewrite E.
+  intros q id d r cb E. unfold qu_dequeue, ll_remove, q_as_ll. cbn [litems lnext lpool lsize]. rewrite E.
   cbn. auto.
 Qed.
 
@@ -789,7 +791,7 @@ Theorem hq_step_refines : forall hs q o, qu_inv q -> hq_R hs q ->
   exists hs', hq_step hs o = Some (hs', snd (qu_step q o)) /\ hq_R hs' (fst (qu_step q o)).
 Proof.
   intros hs q o I R. pose proof (qu_inv_ll q I) as I'. unfold hq_R in *.
-  destruct o as [d ok | | ]; cbn [hq_step qu_step].
+  destruct o as [d ok | cb | cb]; cbn [hq_step qu_step].
   - destruct (qu_enqueue_as_ll q d ok) as [E1 E2].
     destruct (hl_append_refines hs (q_as_ll q) None d ok I' R Logic.I) as [A1 A2].
     change (hq_enqueue hs d ok) with (hl_append hs None d ok).
@@ -800,19 +802,19 @@ Proof.
     unfold hq_dequeue. rewrite Hemp. cbn [q_as_ll litems].
     destruct (qitems q) as [|[id d] r] eqn:Eq.
     + unfold qu_dequeue. rewrite Eq. cbn [fst snd]. eexists. split; [reflexivity | exact R].
-    + destruct (qu_dequeue_as_ll q id d r Eq) as [E1 E2].
+    + destruct (qu_dequeue_as_ll q id d r cb Eq) as [E1 E2].
       assert (Hpos : pos_ok (q_as_ll q) 0 = true) by (unfold pos_ok, zlen; cbn [q_as_ll litems]; rewrite Eq; reflexivity).
-      destruct (hl_remove_refines hs (q_as_ll q) 0 I' R Hpos) as (_ & A2 & A3).
+      destruct (hl_remove_refines hs (q_as_ll q) 0 cb I' R Hpos) as (_ & A2 & A3).
       assert (Hnode : hnext (hh hs) HEAD = node_at (q_as_ll q) 0).
       { unfold hl_first, ids in Hfirst. cbn [q_as_ll litems] in Hfirst. rewrite Eq in Hfirst. cbn [map fst] in Hfirst.
         unfold node_at, ids. cbn [q_as_ll litems Z.to_nat]. rewrite Eq. cbn [map fst nth].
         destruct (hnext (hh hs) HEAD =? TAIL); [discriminate | now inversion Hfirst]. }
       rewrite Hnode. unfold hl_remove in A2, A3.
-      destruct (h_free_data (hh hs) (node_at (q_as_ll q) 0)) as [h1 f]. cbn [fst snd] in *.
-      destruct (qu_dequeue q) as [q' f']. cbn [fst snd] in *. rewrite E1. subst f'.
+      destruct (h_free_data (hh hs) (node_at (q_as_ll q) 0) cb) as [h1 f]. cbn [fst snd] in *.
+      destruct (qu_dequeue q cb) as [q' f']. cbn [fst snd] in *. rewrite E1. subst f'.
       eexists. split; [rewrite A2; reflexivity | exact A3].
-  - change (hq_clear hs) with (hl_clear hs).
-    destruct (hl_clear_refines hs (q_as_ll q) I' R) as (hs' & E & R'). rewrite E.
+  - change (hq_clear hs cb) with (hl_clear hs cb).
+    destruct (hl_clear_refines hs (q_as_ll q) cb I' R) as (hs' & E & R'). rewrite E.
     unfold qu_clear, ll_clear in *. cbn [fst snd q_as_ll litems lnext lpool lsize] in *.
     eexists. split; [reflexivity | exact R'].
 Qed.
@@ -958,7 +960,9 @@ Proof.
   intros req ok hs a H. unfold hps_init in H. destruct (ps_init req ok) as [c|] eqn:E; [|discriminate].
   inversion H; subst. cbn [hcore].
   assert (L : live c = []).
-  { unfold ps_init, ps_init_gen in E. destruct (negb ok); [discriminate|]. inversion E. reflexivity. }
+  { unfold ps_init, ps_init_gen in E.
+    destruct (true && ((if req >? 0 then req else 1) >? two31)); [discriminate|].
+    destruct (negb ok); [discriminate|]. inversion E. reflexivity. }
   unfold hps_R, hps_preset, ps_preset. cbn [hcore hlinks live]. rewrite L. cbn. auto.
 Qed.
 
@@ -993,7 +997,7 @@ Proof.
 Qed.
 
 (* heap-level pointer slot from init (+ cursor preset), any requested capacity *)
-Theorem hps_reachable : forall req a hs0 ops, 0 <= req <= two31 -> hps_init req true = Some hs0 ->
+Theorem hps_reachable : forall req a hs0 ops, 0 <= req < two32 -> hps_init req true = Some hs0 ->
   Forall op_ok ops ->
   exists hs' rs, hps_run (hps_preset hs0 a) ops = Some (hs', rs) /\
                  ps_run (ps_preset (hcore hs0) a) ops = Some (hcore hs', rs) /\
@@ -1011,7 +1015,7 @@ Qed.
 (* non-vacuity *)
 Example hl_example :
   exists hs, hl_init 1 true = Some hs /\
-    let ops := [LIns None 11 true; LApp None 12 true; LIns (Some 1) 13 true; LApp (Some 0) 14 false; LRem 0; LApp None 0 true; LRem 3] in
+    let ops := [LIns None 11 true; LApp None 12 true; LIns (Some 1) 13 true; LApp (Some 0) 14 false; LRem 0 true; LApp None 0 true; LRem 3 false] in
     exists hs' rs, hl_prun hs ops = Some (hs', rs) /\ hl_forward hs' = [(4, 14); (3, 13); (2, 12)] /\
                    hl_backward hs' = [2; 3; 4].
 Proof. eexists. split; [reflexivity|]. cbv zeta. do 2 eexists. split; [vm_compute; reflexivity|]. vm_compute. auto. Qed.
